@@ -81,7 +81,7 @@ Proof.
   destruct (read_u2be s) as [[ty s1]| |] eqn:E1; cbn [bind] in H; try discriminate; [|nf E1].
   destruct (read_u2be s1) as [[ln s2]| |] eqn:E2; cbn [bind] in H; try discriminate; [|nf E2].
   destruct (ty =? 0); [|destruct (ty =? 16)];
-    (destruct (read_bytes ln s2) as [[raw s3]| |] eqn:E3; cbn [bind] in H; try discriminate; [|nf E3]).
+    (destruct (read_bytes ln s2) as [[raw s3]| |] eqn:E3; cbn [bind] in H; try discriminate; try (nf E3)).
   - destruct (read_sni raw) eqn:E4; cbn [bind] in H; try discriminate. exact (read_sni_nf _ E4).
   - destruct (read_alpn raw) eqn:E4; cbn [bind] in H; try discriminate. exact (read_alpn_nf _ E4).
 Qed.
@@ -93,6 +93,15 @@ Proof.
   destruct (read_n_u2be n r) as [[l r']| |] eqn:E2; cbn [bind] in H; try discriminate. exact (IH _ E2).
 Qed.
 
+Lemma cookie_nf (dtls : bool) s6 :
+  (if dtls then let* (cl, s) := read_u1 s6 in let* (c, s0) := read_bytes cl s in Ok (Some c, s0)
+   else Ok (None, s6)) <> NoFuel.
+Proof.
+  intros HX. destruct dtls; [|discriminate].
+  destruct (read_u1 s6) as [[cl s7]| |] eqn:E7; cbn [bind] in HX; try discriminate; [|nf E7].
+  destruct (read_bytes cl s7) as [[c s8]| |] eqn:E8; cbn [bind] in HX; try discriminate. nf E8.
+Qed.
+
 Lemma read_client_hello_nf dtls s : read_client_hello dtls s <> NoFuel.
 Proof.
   unfold read_client_hello. intros H.
@@ -102,14 +111,8 @@ Proof.
   destruct (read_bytes 28 s3) as [[random s4]| |] eqn:E4; cbn [bind] in H; try discriminate; [|nf E4].
   destruct (read_u1 s4) as [[sidlen s5]| |] eqn:E5; cbn [bind] in H; try discriminate; [|nf E5].
   destruct (read_bytes sidlen s5) as [[sid s6]| |] eqn:E6; cbn [bind] in H; try discriminate; [|nf E6].
-  assert (Hc : forall X : rd (option bytes * bytes),
-     X = (if dtls then let* (cl, s) := read_u1 s6 in let* (c, s0) := read_bytes cl s in Ok (Some c, s0)
-          else Ok (None, s6)) -> X <> NoFuel).
-  { intros X -> HX. destruct dtls; [|discriminate].
-    destruct (read_u1 s6) as [[cl s7]| |] eqn:E7; cbn [bind] in HX; try discriminate; [|nf E7].
-    destruct (read_bytes cl s7) as [[c s8]| |] eqn:E8; cbn [bind] in HX; try discriminate. nf E8. }
   match type of H with bind ?m _ = _ => destruct m as [[cookie s9]| |] eqn:E9 end; cbn [bind] in H; try discriminate;
-    [|exact (Hc _ eq_refl E9)]. clear Hc.
+    [|exact (cookie_nf _ _ E9)].
   destruct (read_u2be s9) as [[cslen s10]| |] eqn:E10; cbn [bind] in H; try discriminate; [|nf E10].
   destruct (read_n_u2be (N.to_nat (cslen / 2)) s10) as [[ciphers s11]| |] eqn:E11; cbn [bind] in H; try discriminate;
     [|exact (read_n_u2be_nf _ _ E11)].
@@ -204,7 +207,7 @@ Proof.
       assert (L13 : (13 <= length acc)%nat) by (unfold blen in Hmin; lia).
       assert (A : forall i, (i < 13)%nat -> at_ i acc = at_ i (acc ++ t)).
       { intros i Hi. symmetry. apply at_app_lt. lia. }
-      rewrite (A 9), (A 10), (A 11) by lia. rewrite <- Em. cbn [at_ nth Nat.add].
+      cbn [Nat.add]. rewrite (A 9%nat), (A 10%nat), (A 11%nat) by lia. rewrite <- Em. cbn [at_ nth Nat.add].
       rewrite U. rewrite !blen_cons. unfold len, blen. lia.
   - cbn [app]. split.
     + unfold hs_min. rewrite !blen_cons. lia.
@@ -212,7 +215,7 @@ Proof.
       assert (L4 : (4 <= length acc)%nat) by (unfold blen in Hmin; lia).
       assert (A : forall i, (i < 4)%nat -> at_ i acc = at_ i (acc ++ t)).
       { intros i Hi. symmetry. apply at_app_lt. lia. }
-      rewrite (A 1%nat), (A 2%nat), (A 3%nat) by lia. rewrite <- Em. cbn [at_ nth Nat.add].
+      cbn [Nat.add]. rewrite (A 1%nat), (A 2%nat), (A 3%nat) by lia. rewrite <- Em. cbn [at_ nth Nat.add].
       rewrite U. rewrite !blen_cons. unfold len, blen. lia.
 Qed.
 
@@ -222,12 +225,12 @@ Proof.
   unfold wf_hello. cbn [r_ver r_random r_sid r_cookie r_ciphers r_comp r_exts].
   intros (Hr & Hs & Hk & Hcne & Hc & Hcl & Hcm & He).
   unfold enc_hello. cbn [r_ver r_random r_sid r_cookie r_ciphers r_comp r_exts fst snd].
-  rewrite !len_app, !len_vec8, len_vec16, len_ciphers.
-  assert (len (if dtls then vec8 cookie else []) <= 256).
-  { destruct dtls; [rewrite len_vec8; lia|cbn; lia]. }
-  assert (len (match exts with None => [] | Some es => vec16 (concat (map enc_ext es)) end) <= 65537).
-  { destruct exts; [rewrite len_vec16; lia|cbn; lia]. }
-  change (len [v1; v2]) with 2. lia.
+  change (len ?x) with (len x).
+  destruct dtls; destruct exts as [es|]; try destruct He as [_ He];
+    rewrite ?app_nil_r; cbn [app];
+    rewrite ?len_app, ?len_cons, ?len_app, ?len_vec8, ?len_vec16, ?len_app, ?len_vec8, ?len_vec16, ?len_ciphers;
+    rewrite ?len_app, ?len_vec8, ?len_vec16, ?len_ciphers;
+    change (len []) with 0; lia.
 Qed.
 
 Lemma handshake_split dtls mseq r :
